@@ -20,7 +20,8 @@ META = {
              "by the whole case."
              ' Also: almost axis-aligned rotations, a second --generate-in'
              'fo run into the same destination, the compact URL form compu'
-             'ted from Python floats and NumPy scalars.'),
+             'ted from Python floats and NumPy scalars.'
+             " Round 12: NIfTI headers with qform and sform both set (equal / different) or the qform alone."),
     "trusted_base": ["nibabel (writes the file, reports the affine the tool "
                      "sees)", "float64 arithmetic with relative tolerance "
                      "1e-9"],
@@ -97,6 +98,12 @@ def cases(draw):
             "units": draw(st.sampled_from([None, None, "mm", "micron",
                                            "meter"])),
             "seed": draw(st.integers(0, 2 ** 31)),
+            # which header coordinate system carries the affine: the sform
+            # alone (what most tools write), both (equal or different: the
+            # sform counts), the qform alone
+            "xforms": draw(st.sampled_from([None, None, "both_same",
+                                            "both_differ", "both_differ",
+                                            "qform_only"])),
             "gz": draw(st.booleans())}
 
 
@@ -146,7 +153,8 @@ def check_case(ctx, case):
         path = os.path.join(d, "vol.nii" + (".gz" if case["gz"] else ""))
         slope, inter = case["scaling"] or (None, None)
         nifti.write_nifti(path, raw, case["affine"]["matrix"], slope, inter,
-                          xyz_units=case.get("units"))
+                          xyz_units=case.get("units"),
+                          xforms=case.get("xforms"))
         img, ok = nifti.load_checked(path, raw, slope, inter)
         if not ok:
             ctx.count("precondition_failed")
@@ -341,6 +349,8 @@ def run(ctx, n):
         ctx.record(case, nt, [case["layout"], case["dtype"],
                               "cli" if case["cli"] else "api",
                               "scaled" if case["scaling"] else "unscaled",
+                              "header." + str(case.get("xforms")
+                                              or "sform_only"),
                               "shard.%s" % ("none" if not case["sharding"]
                                             else "ok" if valid_sharding(
                                                 case["sharding"]) else "bad")])
